@@ -43,6 +43,10 @@ def _make(conv, shape, holes, skew, mesh_opts=None):
     if conv == 'cf1d':
         lat = numpy.array([10.0, 11.0, 13.0, 14.0][:ny])
         lon = numpy.array([100.0, 102.0, 103.0, 106.0][:nx])
+        if (mesh_opts or {}).get('int_coords'):
+            # whole-degree coordinates stored in integer types, odd spacings: the cell edges are half-way values
+            lat = numpy.array([10, 11, 14, 15][:ny], dtype='int32')
+            lon = numpy.array([100, 103, 104, 109][:nx], dtype='int64')
         kw = {}
         if ny == 1 or nx == 1:
             # a single coordinate value has no derivable width: such axes need stored bounds
@@ -221,7 +225,7 @@ def cases(tier):
     # cells derived from the centres (a missing centre one cell in from the border; a one-cell-wide channel); coordinate
     # variables named by the caller
     for conv, shape, holes, mo in (('cf2d', (3, 4), ((1, 1),), dict(derived=True)), ('shoc_simple', (3, 3), ((0, 1), (2, 1)), dict(derived=True)),
-                                   ('cf1d', (2, 3), (), dict(explicit=True))):
+                                   ('cf1d', (2, 3), (), dict(explicit=True)), ('cf1d', (3, 2), (), dict(int_coords=True))):
         yield Case(f'{conv}:{shape[0]}x{shape[1]}:holes{len(holes)}:{"+".join(mo)}:get_index_for_point', body,
                    dict(conv=conv, shape=shape, holes=holes, skew=True, via='get_index_for_point', mesh_opts=mo),
                    max_paths=60000, split=32, patches=PATCHES)
